@@ -4,7 +4,7 @@
     primitive floats ([depth_f64], Model/MerklePath.v, following Go's math.log2/math.log).  It
     equals [ceil(log2 n)] for every [1 <= n <= 2^16]: a complete sweep evaluated by [vm_compute]
     and lifted to a universally quantified statement.  The size check of MerkleLeafPath
-    ([n*33 + len(data) + 8 <= MAX_SIZE = 2^20]) admits only [n <= 31775 < 2^16], so inside
+    ([n*33 + len(data) + 8 <= MAX_SIZE = 2^20]) allows only [n <= 31775 < 2^16], so inside
     MerkleLeafPath the two depth functions agree on every input ([leaf_path_f64_eq]). *)
 From Coq Require Import List Bool Arith NArith ZArith Lia ZifyN ZifyNat ZifyBool.
 Import ListNotations.
